@@ -10,8 +10,9 @@
     its value read most recently under the lock, t_wake = token in the wake-up channel, t_armed =
     ticker running, t_tick = tick buffered, t_stale = ticks taken since the ticker was stopped.
     PARTIAL with respect to the property text (labelled, measured by the harness only): real time
-    ("frames start within a bounded number of cycle times"), scheduler fairness / actual
-    termination of goroutines, goroutine leaks, closing of the connection. *)
+    ("frames start within a bounded number of cycle times"), goroutine leaks, closing of the
+    connection.  Termination after Cancel is proved under fairness hypotheses that are written out
+    as Props in the statements (C14_cancel_reaches_done); that the Go scheduler IS fair is not. *)
 From Coq Require Import Arith Bool List String Ascii.
 From CanVerif Require Import Runner.Lts Runner.RunModel Runner.LockDiscipline Runner.Protocol.
 Import ListNotations.
@@ -108,6 +109,50 @@ Theorem C14_failure_only_returns : forall s e s' t x,
   th s t = TTx x -> t_pc x = TFail -> actor e = Some t -> step_fn s e = Some s' -> e = Done t false.
 Proof. exact failure_ends_thread. Qed.
 Print Assumptions C14_failure_only_returns.
+
+(** termination after Cancel, over the whole interleaving.  [runner_steps t s tr] counts the events
+    thread t performs itself along the run of tr from s, the steps of its hook BODY (application
+    code: Lock / Mutate / Unlock between HookCall and HookRet) excluded; [count_ev (sel_choice t) tr] =
+    how often t's select took a wake-up, an event offer or a tick (instead of ctx.Done);
+    [txr] = distance to Done (txr X1 = 12, txr SEL = 1, txr TDone = 0);
+    [quiescent s t] := forall e s', is_actor t e = true -> step_fn s e <> Some s'.
+    (1) in EVERY run the own runner steps are bounded; *)
+Theorem C14_tx_steps_bounded : forall t tr s s' x,
+  run s tr = Some s' -> th s t = TTx x ->
+  exists x', th s' t = TTx x' /\
+    runner_steps t s tr + txr (t_pc x') <= txr (t_pc x) + 12 * count_ev (sel_choice t) tr.
+Proof. exact tx_steps_bounded. Qed.
+Print Assumptions C14_tx_steps_bounded.
+
+(** (2) a cancelled transmitter that has not returned always has an enabled own step when the lock
+    is free or its own: hooks return, TransmitFrame returns, the select sees ctx.Done; *)
+Theorem C14_tx_progress : forall cfg s t x,
+  reachable cfg s -> cancelled s = true -> th s t = TTx x -> t_pc x <> TDone ->
+  (owner s = None \/ owner s = Some t) ->
+  exists e s', is_actor t e = true /\ step_fn s e = Some s'.
+Proof. exact tx_progress. Qed.
+Print Assumptions C14_tx_progress.
+
+(** (3) hence, with the fairness hypotheses written out - at the end of the finite run the lock
+    holders have released (mutex free or t's) and t was scheduled until nothing of t is enabled -
+    every transmitter has reached Done after Cancel, within txr(pc) <= 12 own runner steps plus 12
+    per select choice other than ctx.Done *)
+Theorem C14_cancel_reaches_done : forall cfg s tr s' t x,
+  reachable cfg s -> cancelled s = true -> run s tr = Some s' -> th s t = TTx x ->
+  (owner s' = None \/ owner s' = Some t) -> quiescent s' t ->
+  exists x', th s' t = TTx x' /\ t_pc x' = TDone /\
+             runner_steps t s tr <= txr (t_pc x) + 12 * count_ev (sel_choice t) tr.
+Proof. exact tx_cancel_reaches_done. Qed.
+Print Assumptions C14_cancel_reaches_done.
+
+(** the receiver likewise (Run closes the connection on cancellation, after which Receive()
+    returns false): rxr R1 = 12, 10 further steps per frame still delivered *)
+Theorem C14_receiver_reaches_done : forall cfg s tr s' t p,
+  reachable cfg s -> run s tr = Some s' -> th s t = TRx p ->
+  (owner s' = None \/ owner s' = Some t) -> quiescent s' t ->
+  th s' t = TRx RDone /\ runner_steps t s tr <= rxr p + 10 * count_ev (recv_frame t) tr.
+Proof. exact rx_reaches_done. Qed.
+Print Assumptions C14_receiver_reaches_done.
 
 (** receive path: the loop equals the declarative specification (frames with known IDs, in
     arrival order; those before the first failing one applied and hooked once each; the first
